@@ -341,6 +341,8 @@ def gibbs_cases(draw, tier="quick"):
     c = draw(base_case(["HybridGibbs", "Gibbs"], tier))
     c["N"] = draw(st.integers(1, 8))  # a zero-length first run leaves the legacy Gibbs sampler without a last state (IndexError): refusal
     c["M"] = draw(st.integers(0, 6))
+    # the latent block advanced by several Metropolis transitions per sweep (accepted and rejected ones mix within a sweep)
+    c["mh_x"] = draw(st.sampled_from([False, True]))
     return c
 
 
@@ -360,13 +362,15 @@ def run_gibbs(c, rec):
     import cuqi
     name = c["sampler"]
     N, M, Nb = c["N"], c["M"], c["Nb"]
-    if rec.classify({"sampler": name, "warmup": Nb > 0}, N > 0 and M > 0):
+    if rec.classify({"sampler": name, "warmup": Nb > 0, "mh_x": bool(c.get("mh_x")) and name == "HybridGibbs"}, N > 0 and M > 0):
         return
     try:
         def mk():
             J = gibbs_joint(c)
             if name == "HybridGibbs":
                 E = cuqi.experimental.mcmc
+                if c.get("mh_x"):
+                    return E.HybridGibbs(J, {"x": E.MH(scale=0.4), "d": E.Conjugate(), "l": E.Conjugate()}, num_sampling_steps={"x": 3, "d": 1, "l": 1})
                 return E.HybridGibbs(J, {"x": E.LinearRTO(), "d": E.Conjugate(), "l": E.Conjugate()})
             L = cuqi.sampler
             return L.Gibbs(J, {"x": L.LinearRTO, ("d", "l"): L.Conjugate})
@@ -407,6 +411,10 @@ def run_gibbs(c, rec):
                 gC.sample(1)
                 for k in seen:
                     seen[k].append(np.array(gC.current_samples[k], dtype=float).reshape(-1).copy())
+                    # the recorded value of a block is the state its sampler is in after the sweep
+                    held = np.array(gC.samplers[k].current_point, dtype=float).reshape(-1)
+                    require(maxdiff(held, seen[k][-1]) == 0, f"{name}: after a sweep the recorded value of block '{k}' is not the state of the "
+                            "block's sampler (the chain and its record have separated)", recorded=seen[k][-1], sampler_state=held)
             SC = gC.get_samples()
             off = Nb
         else:
